@@ -5,6 +5,7 @@ package main
 
 import (
 	"fmt"
+	"go/token"
 	"go/types"
 	"os"
 	"strings"
@@ -177,6 +178,11 @@ func (x *Explorer) shouldInline(fn *ssa.Function, binds []Val) bool {
 		return false
 	}
 	pp := fnPkgPath(fn)
+	// generated nil-safe field getters of protobuf messages (`if x != nil { return x.F }; return zero`):
+	// reading a column through its getter is reading the column
+	if isRepoPkgPath(pp) && isNilSafeGetter(fn) {
+		return true
+	}
 	if !isRepoPkgPath(pp) || strings.Contains(pp, "/api/v2/") || strings.HasSuffix(pp, mathPkgSuffix) {
 		return false
 	}
@@ -227,6 +233,53 @@ func (x *Explorer) shouldInline(fn *ssa.Function, binds []Val) bool {
 		}
 	}
 	return false
+}
+
+// isNilSafeGetter: Get<Field>() on a message pointer whose body is nothing but the nil test of the
+// receiver, the load of one field and the return of it or of a constant.
+func isNilSafeGetter(fn *ssa.Function) bool {
+	if !strings.HasPrefix(fn.Name(), "Get") || fn.Signature.Recv() == nil || fn.Signature.Params().Len() != 0 || fn.Signature.Results().Len() != 1 || len(fn.Blocks) == 0 || len(fn.Blocks) > 3 || len(fn.Params) != 1 {
+		return false
+	}
+	if _, isPtr := fn.Signature.Recv().Type().(*types.Pointer); !isPtr {
+		return false
+	}
+	recv := fn.Params[0]
+	nField := 0
+	for _, b := range fn.Blocks {
+		for _, in := range b.Instrs {
+			switch x := in.(type) {
+			case *ssa.BinOp:
+				if x.X != ssa.Value(recv) {
+					return false
+				}
+				if c, ok := x.Y.(*ssa.Const); !ok || !c.IsNil() {
+					return false
+				}
+			case *ssa.If, *ssa.Jump, *ssa.DebugRef:
+			case *ssa.FieldAddr:
+				if x.X != ssa.Value(recv) {
+					return false
+				}
+				nField++
+			case *ssa.UnOp:
+				if _, ok := x.X.(*ssa.FieldAddr); !ok || x.Op != token.MUL {
+					return false
+				}
+			case *ssa.Return:
+				for _, r := range x.Results {
+					switch r.(type) {
+					case *ssa.Const, *ssa.UnOp:
+					default:
+						return false
+					}
+				}
+			default:
+				return false
+			}
+		}
+	}
+	return nField == 1
 }
 
 // termFuncs: hand-written API functions that stay uninterpreted terms in the explorer because E4/E5/E7
